@@ -369,13 +369,13 @@ def ob_compound_assignment(run, mir, rp, fam):
             ob.inconclusive(f"solver reports {found} as desugared differently ({ {k: got[k] for k in found} }) but the replay programs get the required verdicts")
 
 
-BITWISE = ["BAnd", "BOr", "BXOr", "BLShift", "BRShift", "BOneCmpl"]
+BITWISE = ["BAnd", "BOr", "BXOr", "BLShift", "BRShift", "BOneCmpl", "AddU", "SubU"]
 
 
 def ob_bitwise_typed(run, mir, rp, fam):
-    ob = run.ob("bitwise-operators-typed", "E2", "gen_op: the bitwise and shift operators are typed as a method of their left operand (gen_magic with a dunder name, "
-                "operands in source order), like the arithmetic operators - an operand whose class has no such method is a type error at compile time, "
-                "not a TypeError at run time", ["gen_op (BAnd, BOr, BXOr, BLShift, BRShift, BOneCmpl)"])
+    ob = run.ob("bitwise-operators-typed", "E2", "gen_op: the bitwise, shift and unary operators (`_and_`, `_or_`, `_xor_`, `_not_`, `<<`, `>>`, unary `+` and `-`) are typed as a method of "
+                "their (left) operand (a dunder name, operands in source order), like the arithmetic operators - an operand whose class has no such method is a type error at compile time, "
+                "not a TypeError at run time", ["gen_op (BAnd, BOr, BXOr, BLShift, BRShift, BOneCmpl, AddU, SubU)"])
     fn = e2.find1(mir, file=OP_RS, name="gen_op")
     _rel, lay = ckern.node_enum()
     ex = Exec(mir, max_paths=5000)
@@ -403,6 +403,9 @@ def ob_bitwise_typed(run, mir, rp, fam):
     f.add("or-on-float", "def s := 1.5\ndef t := s _or_ 1", "reject")
     f.add("xor-on-str", "def s := \"a\"\ndef t := s _xor_ \"b\"", "reject")
     f.add("complement-on-str", "def s := \"a\"\ndef t := _not_ s", "reject")
+    f.add("unary-minus-on-str", "def s := \"a\"\ndef t := -s", "reject")
+    f.add("unary-plus-on-str", "def s := \"a\"\ndef t := +s", "reject")
+    f.add("unary-minus-on-int", "def s := 3\ndef t: Int := 0 - -s", "accept")
     f.add("shift-left-on-int", "def s := 1\ndef t := s << 1", "accept")
     f.add("and-on-int", "def s := 6\ndef t := s _and_ 3", "accept")
 
